@@ -64,6 +64,9 @@ def run(ctx) -> None:
                                       "R11.3": "R10.6", "R11.6": "R10.6"}), lc)
     r10_4(ctx)
     r10_5(ctx, classes)
+    from .common import descriptor_binding
+    descriptor_binding(ctx, "R10.7", ("_lrucache",))
+    ctx.floor("descriptors", 2)
     ctx.floor("wrapper_classes", 3)
     ctx.floor("maxsize_classes", 6)
     ctx.floor("key_cells", 24)
@@ -113,7 +116,7 @@ def stdlib_facts() -> Dict[str, Any]:
 
 # --------------------------------------------------------------------------- R10.1
 def r10_1(ctx) -> None:
-    u = ctx.unit("_lrucache.CallKey.from_call")
+    u = ctx.inlined(ctx.unit("_lrucache.CallKey.from_call"))  # (type tags etc. may be computed by a private helper)
     facts = stdlib_facts()
     ctx.tables["stdlib functools"] = facts
     node = u.node
